@@ -118,6 +118,16 @@ func history(t *testing.T, c *vk.C, rng *rand.Rand, i int) map[string]int {
 				v := vote
 				e.MetadataSize = &v
 			}
+			if rng.IntN(6) == 0 {
+				// a voter that does not speak ut_metadata (key absent, or number 0): its vote counts or not,
+				// but nothing may be asked of it
+				if rng.IntN(2) == 0 {
+					delete(e.M, "ut_metadata")
+				} else {
+					e.M["ut_metadata"] = 0
+				}
+				st["voters-without-ut_metadata"]++
+			}
 			r.SendExt0(e)
 			if vote > 0 && vote <= 128*1024*1024 {
 				votes[vote]++
@@ -126,6 +136,49 @@ func history(t *testing.T, c *vk.C, rng *rand.Rand, i int) map[string]int {
 			vs = append(vs, v)
 			st["voters"]++
 			return v
+		}
+		if i%7 == 3 && degenerate == "" {
+			// directed: the most voted size moves from a wrong one, for which a block has already been taken, to
+			// the true one; from then on only honest blocks arrive. Nothing forged was ever offered for the
+			// true size, so one honest block per index has to be enough.
+			A := int64(size) + 16384*int64(1+rng.IntN(2))
+			liar := join(A)
+			sw.Cut()
+			time.Sleep(7 * time.Second) // the request tick sizes the buffer for A
+			sw.Cut()
+			for k := 0; k < 1+rng.IntN(2); k++ {
+				ix := rng.IntN(int((A + 16383) / 16384))
+				ln := 16384
+				if rem := int(A) - ix*16384; rem < ln {
+					ln = rem
+				}
+				liar.r.SendRaw(metaFrame(liar.r, refwire.Meta{Type: 1, Piece: int64(ix), TotalSize: &A, Data: make([]byte, ln)}))
+				sw.Act("%s block %d for the wrong size %d", liar.r.Name, ix, A)
+			}
+			sw.Cut()
+			if rng.IntN(2) == 0 {
+				liar.r.Close()
+			}
+			h1 := join(int64(size))
+			join(int64(size))
+			sw.Cut()
+			time.Sleep(7 * time.Second) // the tick after the vote moved re-makes the buffer for the true size
+			sw.Cut()
+			ts := int64(size)
+			for _, ix := range rng.Perm(nblk) {
+				h1.r.SendRaw(metaFrame(h1.r, refwire.Meta{Type: 1, Piece: int64(ix), TotalSize: &ts, Data: blk(ix)}))
+			}
+			sw.Act("one honest pass (%d blocks) after the vote moved to the true size", nblk)
+			sw.Cut()
+			time.Sleep(7 * time.Second)
+			sw.Cut()
+			st["vote_flip_histories"]++
+			if !tr.T.InfoComplete() {
+				sw.Viol("C12", "completion", "incomplete-after-one-honest-pass vote-flip", fmt.Sprintf("metadata of %d bytes: the most voted size moved from %d (one block taken) to the true size, then an honest block for every index was delivered and a request tick passed; still incomplete although nothing forged was offered for the true size", size, A))
+				return
+			}
+			st["completed"]++
+			return
 		}
 		lieSizes := []int64{1, int64(size) - 1, int64(size) + 1, int64(size) + 16384, 16384, 1 << 20, 128 * 1024 * 1024, 128*1024*1024 + 1, 1 << 31, 0}
 		for k := 0; k < 1+rng.IntN(3); k++ {
